@@ -15,7 +15,7 @@ KIND_TEXT = {
     "KChain": "a node was given another event than the one its predecessor returned (or than the event Send built)",
     "KSkipped": "the Range loop ended with registered pipelines unstarted although the context was not done",
     "KCalls": "the harness nodes' own invocation log differs from the calls of the accepted trace (a node of another type's pipeline, or a second invocation)",
-    "KEvent0": "the event given to a first node lacks the sent type / payload / creation time / empty format table",
+    "KEvent0": "the event given to a first node lacks the sent type / payload / creation time / empty format table (or is the payload *Event itself), or a node was given an event whose CONTENT is not what its predecessor returned",
     "KRegistry": "the pipelines the implementation dispatches to differ from those the registration history registered (registry model)",
     "KRecv": "the collector received a Status that is not the sender's own",
     "KAbortLive": "a status was dropped although the context was not done",
